@@ -434,6 +434,43 @@ def shard(first, depth=3):
     return t
 
 
+DEFAULT_HISTORY = [
+    ("set", "a.b", 1),
+    ("dflt", {"a": {"b": 10}}),
+    ("set", "x_y", 1),
+    ("dflt", {"x-y": 10}),
+    ("refresh",),
+    ("set", "a.x-y", 2),
+    ("dflt", {"a": {"z": 20}}),
+    ("refresh",),
+]
+
+
+def w_deviation(item, b=1):
+    """All histories that differ from DEFAULT_HISTORY exactly at the positions `item` (a tuple of positions),
+    every deviating position taking every other event. Every step compared with the model."""
+    import itertools
+
+    t = Tally()
+    pos = list(item)
+    pools = [[e for e in EVENTS if e != DEFAULT_HISTORY[p]] for p in pos]
+    try:
+        for repl in itertools.product(*pools):
+            h = list(DEFAULT_HISTORY)
+            for p, r in zip(pos, repl):
+                h[p] = r
+            I, M, fails = run_history(h)
+            for cls, msg in fails:
+                t.fail(cls, {"history": h}, msg)
+            t.case(key=None, nontrivial=False, n=len(h))
+            t.nontrivial.add(I.canon())
+            t.outcomes.add(I.canon())
+            t.extra["deviation_histories"] += 1
+    finally:
+        impl().restore_base()
+    return t
+
+
 def run(ctx):
     I = impl()
     ctx.assume(
@@ -458,6 +495,17 @@ def run(ctx):
     states = set()
     states |= merged.outcomes
     transitions = int(merged.extra["transitions"]) + len(firsts)
+    # deeper histories by deviation bounding: length-8 default history, at most b positions replaced by any other event
+    import itertools
+
+    b = 1 if ctx.quick else 2
+    L = len(DEFAULT_HISTORY)
+    items = [()] + [tuple(c) for k in range(1, b + 1) for c in itertools.combinations(range(L), k)]
+    dev = ctx.pmap(w_deviation, items, chunk=1, label=f"deviation-bounded histories (length {L}, <= {b} deviations)")
+    ndev = int(dev.extra["deviation_histories"])
+    transitions += ndev * L
+    states |= dev.outcomes
+    ctx.coverage["deviation_bound"] = {"history_length": L, "max_deviations": b, "histories": ndev}
     ctx.coverage.update(
         states=len(states) + 1,
         transitions=transitions,
